@@ -848,6 +848,11 @@ func famSesHostile(t *testing.T, r *Rec) {
 	// a declared length within the limit, a body that yields more (e.g. an inflating middleware in front of the engine)
 	add("limit/post/under-declared", "C10", "ses hs polling 4 0 -", "ses post s1 t d50 "+hx(append([]byte("4"), bytes_repeat('u', 4999)...)))
 	add("limit/multi/under-declared", "C10", "ses hs polling 4 0 -", "ses post s1 t d90 "+hx([]byte("4"+string(bytes_repeat('a', 60))+"\x1e4"+string(bytes_repeat('b', 60))+"\x1e4"+string(bytes_repeat('c', 60)))))
+	// revision 3 decodes text payloads as UTF-8 a second time: a malformed byte becomes U+FFFD (three bytes), so what is
+	// delivered can be up to three times what was read
+	add("limit/post/v3-malformed-utf8", "C10", "ses hs polling 3 0 -", "ses post s1 t 1 "+hx(append([]byte("91:4"), bytes_repeat(0xff, 90)...)))
+	add("limit/ws-frame/v3-malformed-utf8", "C10", "ses hs websocket 3 0 -", "ses frame 0 t "+hx(append([]byte("4"), bytes_repeat(0xff, 99)...)), "ses frame 0 t 346f6b")
+	add("limit/post/v3-two-byte-characters", "C10", "ses hs polling 3 0 -", "ses post s1 t 1 "+hx(append([]byte("46:4"), bytes_repeat2("\xc3\xa9", 45)...)))
 	add("limit/post/multi-packet-above", "C10", "ses hs polling 4 0 -", "ses post s1 t 1 "+hx([]byte("4"+string(bytes_repeat('a', 60))+"\x1e4"+string(bytes_repeat('b', 60)))))
 
 	for _, sc := range scens {
@@ -929,7 +934,12 @@ func famSesHostile(t *testing.T, r *Rec) {
 				}
 				for _, e := range o.events {
 					if e.name == "message" && len(unhx(e.args[1])) > 100 {
-						r.Violate("C10", "C10/delivered/"+sc.name, fmt.Sprintf("a message of %d bytes was delivered with maxPayload 100", len(unhx(e.args[1]))), sc.lines[:i+1])
+						sg := "C10/delivered/" + sc.name
+						if len(unhx(e.args[1])) > 3*size {
+							// beyond what replacing every malformed byte by U+FFFD can produce (the recorded finding)
+							sg = "C10/delivered-beyond-replacement/" + sc.name
+						}
+						r.Violate("C10", sg, fmt.Sprintf("a message of %d bytes was delivered with maxPayload 100 (%d bytes were sent)", len(unhx(e.args[1])), size), sc.lines[:i+1])
 						if len(unhx(e.args[1])) > 10*100 {
 							// a connection that buffers whatever one client sends, far beyond the configured limit, lets that
 							// client take the server's memory: the worst outcome allowed is that its session is closed
@@ -956,6 +966,10 @@ func famSesHostile(t *testing.T, r *Rec) {
 			}
 		}
 	}
+}
+
+func bytes_repeat2(u string, n int) []byte {
+	return []byte(strings.Repeat(u, n))
 }
 
 func bytes_repeat(c byte, n int) []byte {
